@@ -14,7 +14,7 @@ import hashlib
 import struct
 
 from sim import backend
-from sim.core import HarnessError, short
+from sim.core import SetupViolation, HarnessError, short
 from sim.ref_ws import FrameParser, SenderMonitor
 from sim.seams import SEAMS
 
@@ -280,7 +280,7 @@ class WsWorld:
         self.fw.make_connection(tc)
         pump()
         if dc.p._st != 3 or ds.p._st != 3:
-            raise HarnessError("decoy connection did not open: %r %r" % (dc.events, ds.events))
+            raise SetupViolation("own-peers-did-not-complete-the-handshake", "decoy: %r %r" % (dc.events, ds.events))
         try:
             self.fw.call(self, script, dc, ds)
         except Exception as e:  # noqa
